@@ -43,7 +43,28 @@ def _size(nd, want):
         elif e == 2:
             if p._processes <= 1:
                 raise Prune()
-            p.shrink(1)
+            # the supervisor thread may run a pass at any point of shrink(): while it is inside the slot semaphore, or right
+            # after the chosen worker was told to go (an idle worker is gone at once)
+            pre = nd.draw(0, 2)
+            real_sem_shrink = p._putlock.shrink
+
+            def sem_shrink():
+                real_sem_shrink()
+                if pre == 1:
+                    w.tick()
+            p._putlock.shrink = sem_shrink
+            for x in p._pool:
+                def tc(x=x):
+                    type(x).terminate_controlled(x)
+                    if pre == 2:
+                        w.tick()
+                x.terminate_controlled = tc
+            try:
+                p.shrink(1)
+            finally:
+                del p._putlock.shrink
+                for x in p._pool:
+                    x.__dict__.pop('terminate_controlled', None)
             shrinks_since_tick += 1
             if shrinks_since_tick > 1:
                 double_shrink = True
